@@ -379,7 +379,7 @@ def logical_and(I, a, b):
     return _mk(I, z3.And(a.t, b.t), a, b)
 
 
-def ite(I, c, a, b):
+def ite(I, c, a, b, use_ctx=True):
     """np.where / masked assignment on generic elements"""
     if isinstance(c, bool):
         return a if c else b
@@ -388,7 +388,7 @@ def ite(I, c, a, b):
         return lift(a)
     if z3.is_false(c):
         return lift(b)
-    if I is not None and getattr(I, 'path', None) is not None and I.prune and I.path.pc:
+    if use_ctx and I is not None and getattr(I, 'path', None) is not None and I.prune and I.path.pc:
         # condition decided by the path condition / contract hypotheses: keep the term small
         if not I.feasible(z3.Not(c)):
             return lift(a)
